@@ -35,8 +35,12 @@ Theorem C04_spec_reproduces_published_counts :
   counts "r3k2r/p1ppqpb1/bn2pnp1/3PN3/1p2P3/2N2Q1p/PPPBBPPP/R3K2R w KQkq - 0 1" [1;2]%nat = [48; 2039] /\
   counts "8/2p5/3p4/KP5r/1R3p1k/8/4P1P1/8 w - - 0 1" [1;2;3]%nat = [14; 191; 2812] /\
   counts "r3k2r/Pppp1ppp/1b3nbN/nP6/BBP1P3/q4N2/Pp1P2PP/R2Q1RK1 w kq - 0 1" [1;2]%nat = [6; 264] /\
-  counts "rnbq1k1r/pp1Pbppp/2p5/8/2B5/8/PPP1NnPP/RNBQK2R w KQ - 1 8" [1;2]%nat = [44; 1486].
-Proof. exact (conj (proj1 spec_startpos) (conj (proj1 spec_kiwipete) (conj (proj1 spec_position3) (conj (proj1 spec_position4) (proj1 spec_position5))))). Qed.
+  counts "rnbq1k1r/pp1Pbppp/2p5/8/2B5/8/PPP1NnPP/RNBQK2R w KQ - 1 8" [1;2]%nat = [44; 1486] /\
+  counts960 "bqnb1rkr/pp3ppp/3ppn2/2p5/5P2/P2P4/NPP1P1PP/BQ1BNRKR w HFhf - 2 9" [1;2]%nat = [21; 528] /\
+  counts960 "b1q1rrkb/pppppppp/3nn3/8/P7/1PPP4/4PPPP/BQNNRKRB w GE - 1 9" [1;2]%nat = [20; 479] /\
+  counts960 "r1bbnk1r/qpp1pppp/p6n/3p4/1P6/5N1P/P1PPPPP1/RQBBK1NR w ha - 0 9" [1;2]%nat = [23; 728].
+Proof. exact (conj (proj1 spec_startpos) (conj (proj1 spec_kiwipete) (conj (proj1 spec_position3) (conj (proj1 spec_position4) (conj (proj1 spec_position5)
+         (conj (proj1 spec_frc_1) (conj (proj1 spec_frc_2) (proj1 spec_frc_3)))))))). Qed.
 
 Print Assumptions C04_spec_reproduces_published_counts.
 Print Assumptions C04_perft_counts_rule_sequences. Print Assumptions C04_spec_perft_zero. Print Assumptions C04_spec_perft_recurrence.
